@@ -28,6 +28,18 @@ CHECKS = {
     "C12": dict(engine="asmdump+asmcmp", cat="exploration", tech="runtime comparison of the assembled listing with the emitted machine code through a common disassembler",
                 text="listing assembled with GNU as and machine code both disassembled with objdump and compared instruction by instruction (nop padding dropped, branch targets as instruction ordinals) for generated programs x targets x 64/32-bit x jumps x frame pointer x feature subsets",
                 note="no ARM/MIPS cross assembler is installed, so the NEON/MIPS sub-claim is not decided (the statement makes it conditional on one being installed)"),
+    "C04": dict(engine="orccgen+orccdrv", cat="exploration", tech="runtime differential monitoring of gcc-compiled generated C (backup and Orc-free forms written by the real orcc) against an independent reference interpreter, plus regeneration of the emulator source",
+                text="every single-opcode form and random int/float/mixed programs go through orcc; the emitted C is compiled with gcc and run as executor-based backup (ORC_CODE=backup) and as Orc-free DISABLE_ORC build; destination bytes with canary margins, accumulators and sources are compared with the reference interpreter; generate-emulation output is token-compared with the checked-in emulator",
+                note="finite float operands only (C18 grants bit-exactness for those); gcc -O2 only; the reference interpreter is tied to emulation by C02"),
+    "C06": dict(engine="fault", cat="fault_enumeration", tech="fault injection at the libc boundary (--wrap=mkstemp,ftruncate,mmap) enumerated by call index, ORC_CODE modes and program kinds; results compared with emulation; fd growth and ASan monitors",
+                text="every single failure position (and pairs; thorough: all pairs) of the mkstemp/ftruncate/mmap calls liborc makes, and the permanent failure modes, crossed with ORC_CODE settings, backup registration, code-only executors and three program kinds, each in its own process",
+                note="only the calls code memory uses are failed; malloc failure is not injected"),
+    "C07": dict(engine="orccgen+orccdrv+memfn", cat="exploration", tech="end-to-end runtime monitoring of orcc output: generated .orc -> real orcc in 11 option sets -> gcc -> functions called through their prototypes in JIT/backup/emulate/DISABLE_ORC modes and from concurrent threads under TSan, compared with a reference interpreter",
+                text="hundreds (thorough: thousands) of generated functions x 11 orcc configurations x 4 build/run modes called through the generated C prototype with all parameter classes, strides, accumulators, n, m; concurrent first calls under ThreadSanitizer; orcc --test output compiled and run; orc_memcpy/orc_memset against memcpy/memset for all small lengths and alignments; repository .orc corpus compiled in every configuration",
+                note="finite float operands only; gcc -O2 only; --inline/--init-function have no Orc-free form"),
+    "C08": dict(engine="mt", cat="exploration", tech="ThreadSanitizer-instrumented multi-threaded stress of init/compile/run/take/free with a yield hook injecting delays between critical sections; results compared with emulation",
+                text="many fresh processes per scenario (concurrent orc_init, concurrent compiles on different programs, shared compiled function, take_code/free against compiles, once-guarded first calls) under TSan with randomised delays at the yield hook; report blocks counted and deduplicated, results compared with emulation",
+                note="TSan sees only the interleavings the runs produced; distinct orderings observed are reported in the evidence"),
     "C05": dict(engine="api", cat="exploration", tech="ASan/UBSan-instrumented execution of the compiler on generated valid, invalid and over-limit programs for all targets, with a result-classification monitor and a watchdog",
                 text="about 150k (quick) compiles of valid, mutated and over-limit programs for all eight registered targets and several flag sets under address/UB sanitizers; after every compile the harness checks the three-way result contract and emulates non-fatal programs",
                 note="sanitizers see only heap/stack/global red-zone and array-subscript violations; bounded time is restated as a 240 s per-case watchdog"),
@@ -67,6 +79,10 @@ ENGINES = [
     {"name": "api", "path": "harness/api.c", "serves_properties": ["C05", "C13", "C14", "C15", "C16", "C17", "C20"],
      "kind_free_text": "API-level monitors (compile totality, bytecode round trip, parser fuzzing, text/API equivalence, lifecycle, determinism, extension opcodes), built with ASan/UBSan or plain"},
     {"name": "codemem", "path": "harness/codemem.c", "serves_properties": ["C09"], "kind_free_text": "allocator history enumeration and random compile/free histories with a hook-based invariant walk"},
+    {"name": "orccgen+orccdrv", "path": "harness/orccgen.c", "serves_properties": ["C04", "C07"], "kind_free_text": "generator of .orc batches, prototype-calling drivers and reference checksums; vlib/orccdrv.py runs the real orcc, gcc and the resulting programs in every mode"},
+    {"name": "memfn", "path": "harness/memfn.c", "serves_properties": ["C07"], "kind_free_text": "orc_memcpy/orc_memset vs memcpy/memset over lengths and alignments with canaries"},
+    {"name": "fault", "path": "harness/fault.c", "serves_properties": ["C06"], "kind_free_text": "--wrap based failure injection for mkstemp/ftruncate/mmap with per-process failure plans"},
+    {"name": "mt", "path": "harness/mt.c", "serves_properties": ["C08"], "kind_free_text": "multi-threaded scenarios built with -fsanitize=thread, delays injected through orc_verif_yield_hook"},
     {"name": "cpu", "path": "harness/cpu.c", "serves_properties": ["C19"], "kind_free_text": "per-process probe of target selection under masked cpuid"},
     {"name": "asmdump+asmcmp", "path": "harness/asmdump.c", "serves_properties": ["C11", "C12"],
      "kind_free_text": "dumps listing and machine code of compiled programs; vlib/asmcmp.py compares them through GNU as/objdump and classifies instructions against ISA subsets"},
